@@ -140,6 +140,26 @@ pub enum FmtK {
     Default,
     /// prints nothing at all
     Empty,
+    /// like Raw, but refuses messages that start with "FAIL:" after having written a fragment
+    RawFallible,
+}
+
+/// A format function may fail half-way. What becomes of the refused record is the crate's
+/// business (the fragment as a line of its own, or nothing); the records around it must not be
+/// affected.
+pub fn fmt_raw_fallible(
+    w: &mut dyn std::io::Write,
+    _now: &mut DeferredNow,
+    record: &log::Record,
+) -> Result<(), std::io::Error> {
+    let text = record.args().to_string();
+    match text.strip_prefix("FAIL:") {
+        Some(rest) => {
+            write!(w, "FAILPART<{rest}>")?;
+            Err(std::io::Error::new(std::io::ErrorKind::Other, "flmon: format function refuses this record"))
+        }
+        None => w.write_all(text.as_bytes()),
+    }
 }
 
 pub fn fmt_raw(
@@ -165,12 +185,13 @@ impl FmtK {
             FmtK::Raw => fmt_raw,
             FmtK::Default => flexi_logger::default_format,
             FmtK::Empty => fmt_empty,
+            FmtK::RawFallible => fmt_raw_fallible,
         }
     }
     /// what the format prints for a record (independent of the crate)
     pub fn expected(self, level: log::Level, msg: &str) -> Vec<u8> {
         match self {
-            FmtK::Raw => msg.as_bytes().to_vec(),
+            FmtK::Raw | FmtK::RawFallible => msg.as_bytes().to_vec(),
             FmtK::Default => format!("{} [{}] {}", level.as_str(), MODULE, msg).into_bytes(),
             FmtK::Empty => Vec::new(),
         }
